@@ -1,8 +1,8 @@
 ID = 'C17'
 UNITS = {'args': dict(wrap='wrap.cc', shim=True, new_block=64, cxxflags=['-DVERIF_UMAP_CAP=6']),
          # split_args: vector<string> of k words needs 32*pow2ceil(k) bytes from operator new
-         'split64': dict(wrap='wrap.cc', shim=True, new_block=64, cxxflags=['-DVERIF_UMAP_CAP=6'], ir2c_flags=['--ptrdiff', '--flat-unions'], gen_defs=['VERIF_NEW_ZERO']),
-         'split128': dict(wrap='wrap.cc', shim=True, new_block=128, cxxflags=['-DVERIF_UMAP_CAP=6'], ir2c_flags=['--ptrdiff', '--flat-unions'], gen_defs=['VERIF_NEW_ZERO'])}
+         'split64': dict(wrap='wrap.cc', shim=True, new_block=64, cxxflags=['-DVERIF_UMAP_CAP=6'], ir2c_flags=['--ptrdiff', '--flat-unions']),
+         'split128': dict(wrap='wrap.cc', shim=True, new_block=128, cxxflags=['-DVERIF_UMAP_CAP=6'], ir2c_flags=['--ptrdiff', '--flat-unions'])}
 UNITS['cls'] = dict(wrap='wrap.cc', shim=True, new_block=320, cxxflags=['-DVERIF_UMAP_CAP=4', '-DTOKW=6'], ir2c_flags=['--ptrdiff', '--flat-unions'], gen_defs=['VERIF_NEW_ZERO'])
 FAST = ['--max-field-sensitivity-array-size', '512']
 BOUNDS = ''
@@ -23,9 +23,12 @@ def queries(tier):
             qs.append(dict(name='float_%s_len%d' % ('f64' if d else 'f32', L), unit='args', harness='h_float.c', defs={'IS_DOUBLE': d, 'LEN': L}, unwind=40, timeout=300, mem_gb=4,
                            tv_runs=100, desc='parse_float<%s> on a %d-byte text: bytes, strtod value (all bit patterns) and end pointer symbolic' % ('double' if d else 'float', L),
                            bounds='text length %d' % L))
-    for L in ([0, 1, 2, 3] if tier == 'quick' else [0, 1, 2, 3, 4, 5]):
-        qs.append(dict(name='split_len%d' % L, unit='split64' if L <= 3 else 'split128', harness='h_split.c', defs={'LEN': L}, unwind=L + 3, timeout=900, mem_gb=6, flags=FAST,
+    for L in ([0, 1] if tier == 'quick' else [0, 1, 2]):
+        qs.append(dict(name='split_len%d' % L, unit='split64', harness='h_split.c', defs={'LEN': L}, unwind=L + 3, timeout=1500, mem_gb=10,
                        tv_runs=300, desc='split_args on %d symbolic bytes vs reference shell-style tokenizer' % L, bounds='input length %d, all byte values but NUL' % L))
+    # cheap cell for the empty quoted argument: both bytes are the same (symbolically chosen) quote character: '' or ""
+    qs.append(dict(name='split_quotes', unit='split64', harness='h_split.c', defs={'LEN': 2, 'QUOTES': 1}, unwind=5, timeout=600, mem_gb=6,
+                   tv_runs=20, desc="split_args on '' and \"\" (quote character symbolic) vs reference tokenizer", bounds='the two inputs of length 2 made of one repeated quote character'))
     # token kinds: (kind, length); see h_classify.c
     S0, S1, S2 = (0, 0), (0, 1), (0, 2)
     LO1, LO2, LO3 = (1, 3), (1, 4), (1, 5)      # "--" + 1..3 symbolic bytes  (TOKW must be >= 5)
